@@ -87,6 +87,7 @@ namespace vh
 #include "vh_ctl.h"
 #include "vh_iso.h"
 #include "vh_pbo.h"
+#include "vh_vfs.h"
 
 static std::string handle(const std::string& verb, const std::vector<std::string>& f)
 {
@@ -106,6 +107,7 @@ static std::string handle(const std::string& verb, const std::vector<std::string
         else if (verb == "ctl3") { return vh::verb_ctl3(f); }
         else if (verb == "iso") { return vh::verb_iso(f); }
         else if (verb == "pbo") { return vh::verb_pbo(f); }
+        else if (verb == "vfs") { return vh::verb_vfs(f); }
         else { return "bad-verb"; }
     }
     catch (const std::exception& ex)
